@@ -4,7 +4,7 @@ from . import gen_c01, oracles
 
 class GraphProp:
     def __init__(self, pid, gen, owner, compare, reach, signature=None, fault_rate=0.12,
-                 simplify=None, variants=None, shard=None, followups=None, valid=None):
+                 simplify=None, variants=None, shard=None, followups=None, valid=None, assignment=None):
         self.pid = pid
         self.gen = gen
         self.owner = owner
@@ -16,6 +16,7 @@ class GraphProp:
         self.variants = variants
         self.shard = shard      # case -> str: the JIT-specialisation class a case belongs to
         self.followups = followups
+        self.assignment = assignment  # (nworkers, tier) -> {shard: worker}
         self.valid = valid          # case -> bool: inside the property's stated domain
 
 
@@ -34,7 +35,7 @@ GRAPH_PROPS = {}
 
 def _register():
     GRAPH_PROPS["C01"] = GraphProp("C01", gen_c01.gen_case, gen_c01.owner, oracles.c01, gen_c01.reach,
-                                   shard=gen_c01.shard, valid=gen_c01.valid)
+                                   shard=gen_c01.shard, valid=gen_c01.valid, assignment=gen_c01.assignment)
     try:
         from . import gen_c03
         GRAPH_PROPS["C03"] = GraphProp("C03", gen_c03.gen_case, gen_c03.owner, gen_c03.compare,
